@@ -43,7 +43,7 @@ def _conv_glob(c):
 def _conv_walk(c):
     if c.get("_conv"):
         return c
-    return dict(_conv=True, pkgs=_paths(c["pkgs"]), dir=_path(c["dir"]), bl=_paths(c["bl"]), ex=_paths(c["ex"]),
+    return dict(_conv=True, pkgs=_paths(c["pkgs"]), dir=_path(c["dir"]), bl=_paths(c["bl"]), ex=_paths(c["ex"]), bd=_paths(c.get("bd", [])),
                 must=_paths(c["must"]), opt=_paths(c["opt"]), algo=_paths(c["algo"]), diffs=_pairs(c["diffs"]),
                 forbid=_pairs(c["forbid"]), cmust=c["cmust"], cmay=c["cmay"], calgo=c["calgo"])
 
@@ -304,7 +304,7 @@ def _e2e_walk(ctx, cases, n):
 @register("C22", claim=CLAIM22)
 def run_c22(ctx):
     ctx.rule = ("one case = (set of package directories over 20 directories with prefix-sharing names, dir, blacklistdirs, "
-                "experimentaldir), a state of PackageWalk.tla whose invariant checks the spec's consistency and prints the "
+                "experimentaldir, optionally one directory without a BUILD file that holds a sub-directory named BUILD), a state of PackageWalk.tla whose invariant checks the spec's consistency and prints the "
                 "property-level bounds; each case is one real FindAllBuildFiles walk (and one containsPackage call) on the "
                 "materialised tree with the settings read from a real .plzconfig; non-trivial = some package must be yielded "
                 "or some package under dir is forbidden; distinct by the whole case")
@@ -313,6 +313,7 @@ def run_c22(ctx):
         "packages under experimentaldir, under a blacklist entry naming dir or a directory above it, or under a path-shaped blacklist entry: either way",
         "dir itself is never hidden nor plz-out; plz-out only at the repository root",
         "prefix argument of FindAllBuildFiles is \"\" as in findOriginalTask",
+        "a directory named BUILD is not a BUILD file: the directory holding it is a package only if it also holds a BUILD file",
     ]
     if ctx.replay_only is not None:
         cases = [_conv_walk(d["case"]) for d in ctx.replay_only]
@@ -338,10 +339,10 @@ def run_c22(ctx):
         o = obs.get(c["id"])
         if o is None:
             raise vlib.Infra("no observation for case %d" % c["id"])
-        key = json.dumps([c["pkgs"], c["dir"], c["bl"], c["ex"]])
+        key = json.dumps([c["pkgs"], c["dir"], c["bl"], c["ex"], c.get("bd", [])])
         bad = _judge_walk(c, o)
         ctx.count(key, nontrivial=bool(c["must"] or c["forbid"]),
-                  sample=dict(case={k: c[k] for k in ("pkgs", "dir", "bl", "ex", "must", "opt")}, observed=o)
+                  sample=dict(case={k: c[k] for k in ("pkgs", "dir", "bl", "ex", "bd", "must", "opt")}, observed=o)
                   if c["bl"] and c["must"] and c["forbid"] and not bad else None)
         for sig, info in bad:
             classes[sig] = classes.get(sig, 0) + 1
